@@ -114,6 +114,11 @@ def check(ctx, rep):
                     continue
                 after = False
                 regenerated = False
+                # whatever was set before the load: when the load failed the entries must not count as cached at the end
+                fc = [e for e in p.events if e.kind == "assign" and isinstance(e.target, str) and e.target == "self.fromcache"]
+                if fc and truth(fc[-1].extra) is not False:
+                    problems.append("after a failed load the entries are still marked as loaded from the cache (set before the load and not taken back): "
+                                    "callers skip what they do for freshly generated listings (merge, sort, rewriting the damaged file)")
                 for e in p.events:
                     if e.kind == "raise" and e.node is s.call:
                         after = True
